@@ -323,6 +323,16 @@ def run_part_group(g):
     return {"vals": g["vals"], "k": g["k"], "res": res}
 
 
+def run_wit_group(g):
+    """g: {vals, k, o, kp, calls (all under objective o, kp)} -> the trace of run_part_group plus a WITNESS partition for that objective, found by the
+    harness's own exhaustive search (textbook.best_partition); TLC checks the witness itself (JWit)"""
+    from .textbook import best_partition
+    t = run_part_group(g)
+    t["o"], t["kp"] = g["o"], g["kp"]
+    t["wit"] = best_partition(g["vals"], g["k"], g["o"], g["kp"])[1]
+    return t
+
+
 # ------------------------------------------------------------------ packing / covering calls
 OUTTYPES = {
     "Sums": out.Sums, "LargestSum": out.LargestSum, "SmallestSum": out.SmallestSum, "ExtremeSums": out.ExtremeSums,
